@@ -37,7 +37,7 @@ func init() {
 	register(&Prop{
 		ID:         "C09",
 		Title:      "The expression front end is total and strict",
-		Decided:    "absence of run-time faults, progress, and the parser's acceptance condition, over every function of interpreter and interpreter/language reachable from Language.Match/Update: (R1) every single-result type assertion is dominated by facts that establish the asserted dynamic type (type-tag tests, matchTypes, same-type classes, type switches, earlier comma-ok, facts established at all call sites, constant-specialised callee results); (R2) every slice/string index and slice expression is bounded: range/count-down loop indices, constant indices under an established length, two-sided guards – three sites rest on named assumptions; (R3) nil discipline: every nil result of a parse function is accompanied by a recorded error, both entry points either assign the parsed expression or record an error on every path, and Match/Update test the parser's errors before evaluating; (R4) every loop either iterates over a finite container / counts, or consumes input on every cycle; (R5) every recursive cycle contains a progressing edge (a token consumed before the call, or an argument that is a strict sub-term of a parameter, or a visited-set guard); (R6) strictness: the whole input must be one sentence – a second sentence records an error; (R7) an evaluation error object always becomes an error return of Match/Update.",
+		Decided:    "absence of run-time faults, progress, and the parser's acceptance condition, over every function of interpreter and interpreter/language reachable from Language.Match/Update: (R1) every single-result type assertion is dominated by facts that establish the asserted dynamic type (type-tag tests, matchTypes, same-type classes, type switches, earlier comma-ok, facts established at all call sites, constant-specialised callee results); (R2) every slice/string index and slice expression is bounded: range/count-down loop indices, constant indices under an established length, two-sided guards – three sites rest on named assumptions; (R3) nil discipline: every nil result of a parse function is accompanied by a recorded error, both entry points either assign the parsed expression or record an error on every path, and Match/Update test the parser's errors before evaluating; (R4) every loop either iterates over a finite container / counts, or consumes input on every cycle; (R5) every recursive cycle contains a progressing edge (a token consumed before the call, or an argument that is a strict sub-term of a parameter, or a visited-set guard); (R6) strictness: the whole input must be one sentence – a second sentence records an error; (R7) an evaluation error object always becomes an error return of Match/Update; (R6) a malformed operand is only noticed when it is evaluated: every node evaluator evaluates all its operands, and every member of a list operand, before it returns a non-error result (= C16.R8).",
 		NotDecided: "that every ungrammatical string is rejected by the inner productions (R3/R6 decide the top-level acceptance condition and 'nil implies error'); stack depth for deeply nested but finite inputs; arithmetic overflow in list indexes converted from float64.",
 		Assumes:    []string{"objects and AST nodes are finite acyclic trees built from finite inputs (structural-descent recursion terminates)", "Lexer.readPosition/position are only ever increased from zero (verified: the only stores are in readChar)"},
 		Rules: []RuleDef{
@@ -48,6 +48,7 @@ func init() {
 			{ID: "R5", Desc: "recursive cycles contain a progressing edge (T-PROG)", Run: c09R5},
 			{ID: "R6", Desc: "the whole input is one sentence (strictness)", Run: c09R6},
 			{ID: "R7", Desc: "evaluation errors surface as errors of Match/Update (T-DOM)", Run: c09R7},
+			{ID: "R6", Desc: "strictness: every operand and every list member is evaluated before a non-error result (= C16.R8)", Run: aliasRule("R6", c16R8, nil)},
 		},
 	})
 }
